@@ -59,6 +59,9 @@ def _nrm(x):
     return float(np.linalg.norm(np.asarray(x).ravel()))
 
 
+BSTYLES = ('random', 'random', 'random', 'random', 'random', 'max', 'max', 'one')
+
+
 class _Case:
     def __init__(self, c):
         self.c = c
@@ -78,16 +81,21 @@ class _Case:
             self.fail(fn_name, 'returns', f'raised {type(e).__name__}: {e}')
             return False, None
 
+    def _dmax(self, Dmax=None):
+        # mostly bonds > 1 (bond dimension 1 everywhere hides index-order slips), sometimes the degenerate profile
+        Dmax = Dmax or self.c['Dmax']
+        return 1 if self.rng.random() < 0.1 else int(self.rng.integers(2, Dmax + 1))
+
     def mps(self, q0, q1, order=None):
         rng = self.rng
-        return H.rand_mps(rng, self.qd, self.L, int(rng.integers(1, self.c['Dmax'] + 1)), q0, q1, self.c['entries'],
-                          bstyle=('random', 'random', 'max', 'one')[int(rng.integers(4))],
+        return H.rand_mps(rng, self.qd, self.L, self._dmax(), q0, q1, self.c['entries'],
+                          bstyle=BSTYLES[int(rng.integers(len(BSTYLES)))],
                           order=order or ('random', 'sorted', 'reverse')[int(rng.integers(3))])
 
     def mpo(self, q0, q1, order=None, Dmax=None):
         rng = self.rng
-        return H.rand_mpo(rng, self.qd, self.L, int(rng.integers(1, (Dmax or self.c['Dmax']) + 1)), q0, q1, self.c['entries'],
-                          bstyle=('random', 'random', 'max', 'one')[int(rng.integers(4))],
+        return H.rand_mpo(rng, self.qd, self.L, self._dmax(Dmax), q0, q1, self.c['entries'],
+                          bstyle=BSTYLES[int(rng.integers(len(BSTYLES)))],
                           order=order or ('random', 'sorted', 'reverse')[int(rng.integers(3))])
 
     def sector(self, mpo=False):
